@@ -99,6 +99,60 @@ def cas_table(F, b, conds, entry, stops):
     return rows
 
 
+def cas_helper_table(F, b, arms, entry):
+    """the CAS decision extracted into a boolean helper `fn(current: Option<..>, expected: Option<..>) -> bool` called from the
+    CompareAndSwap arm: rows of the same shape as cas_table, computed from the helper's exact decision table (pathsym)"""
+    from .. import pathsym
+    for (bi, t) in b.calls():
+        a = arm_of(b, arms, bi)
+        if not a or a[1] != entry or t["dest"].get("pj") or b.local_ty(t["dest"]["l"]) != "bool" or len(t["args"]) < 2:
+            continue
+        tg = [x for x in F.resolve_targets(t) if x in F.bodies]
+        if len(tg) != 1:
+            continue
+        roles = [role_of(PSlice(F, b).operand(x)) for x in t["args"]]
+        if sorted(str(r) for r in roles if r) != ["cur", "exp"]:
+            continue
+        hb = F.main_body(F.bodies[tg[0]])
+        try:
+            paths, _ev = pathsym.decision_table(F, hb)
+        except pathsym.TooComplex:
+            continue
+        pi = {"cur": roles.index("cur") + 1, "exp": roles.index("exp") + 1}
+        is_par = lambda i: (lambda e: e[0] == "param" and e[1] == i)
+        tb = pathsym.Table(paths)
+        vc = [v for v in tb.vars if is_par(pi["cur"])(pathsym.strip_refs(v))]
+        ve = [v for v in tb.vars if is_par(pi["exp"])(pathsym.strip_refs(v))]
+        if len(vc) != 1 or len(ve) != 1:
+            continue
+        rows = []
+        for p in paths:
+            cv = ev = None
+            for (ce, out) in p.conds:
+                if ce[0] == "variant" and ce[1] == vc[0]:
+                    cv = frozenset(out) if cv is None else cv & frozenset(out)
+                if ce[0] == "variant" and ce[1] == ve[0]:
+                    ev = frozenset(out) if ev is None else ev & frozenset(out)
+            r = pathsym.strip_refs(p.ret) if p.ret is not None else None
+            if r is None:
+                continue
+            if r[0] == "const":
+                val, eq_roles = r[1], None
+            elif r[0] == "bin" and r[1] == "Eq":
+                val = "eq"
+                m = lambda x, i: pathsym.mentions(x, is_par(i))
+                sides = []
+                for x in (r[2], r[3]):
+                    sides.append("cur" if m(x, pi["cur"]) and not m(x, pi["exp"]) else ("exp" if m(x, pi["exp"]) and not m(x, pi["cur"]) else "None"))
+                eq_roles = sorted(sides)
+            else:
+                val, eq_roles = "expr:%s" % pathsym.show(r)[:60], None
+            rows.append((cv, ev, val, bi, t["dest"]["l"], None, eq_roles))
+        if rows:
+            return rows
+    return []
+
+
 SPEC = {("Some", "Some"): "eq", ("None", "None"): "true", ("Some", "None"): "false", ("None", "Some"): "false"}
 
 
@@ -120,6 +174,8 @@ def run(ctx):
                 if c.variants != {"CompareAndSwap"}:
                     continue
                 rows = cas_table(F, b, conds, entry, stops - {entry})
+                if not rows or all(r[2].startswith("call:") for r in rows):
+                    rows = cas_helper_table(F, b, arms, entry) or rows
                 if rows:
                     decision = (b, entry, rows, conds, arms)
         key = "%s#cas" % fkey(root)
@@ -145,7 +201,7 @@ def run(ctx):
             if r[2] != "eq":
                 continue
             t = r[5]
-            roles = sorted(str(role_of(PSlice(F, b).operand(a))) for a in t["args"][:2])
+            roles = r[6] if t is None and len(r) > 6 else sorted(str(role_of(PSlice(F, b).operand(a))) for a in t["args"][:2])
             ctx.check("C22-a", key + "#eq-operands", roles == ["cur", "exp"], "equality compares the current value with the expected value",
                       "the equality that decides a present/present CAS does not compare current with expected (operand roles: %s)" % roles, loc(b, r[3]))
         flag = sorted(flags)[0]
